@@ -5,6 +5,10 @@
                                              worktree and, if it holds up, store it as /verif/seeded/<PROP>_<label>/
   seeded.py run [name-substring ...]         apply each stored change to /repo, run the quick checks listed in its
                                              meta.json (default: the property's own check), undo, and report
+  seeded.py prun <N> [name-substring ...]    the same on N scratch copies in parallel: each worker has its own worktree of
+                                             /repo (HEAD) under /tmp/seedpar/<k>/repo and its own copy of /verif under
+                                             /tmp/seedpar/<k>/verif whose harness/go.mod replace directive points at that
+                                             worktree; /repo itself is not touched. Used for regression re-runs only.
 """
 import glob
 import json
@@ -179,7 +183,88 @@ def cmd_run(filt):
     return 0
 
 
+def cmd_prun(n, filt):
+    import threading
+    names = []
+    for d in sorted(glob.glob(os.path.join(SEEDED, "*"))):
+        name = os.path.basename(d)
+        if filt and not any(f in name for f in filt):
+            continue
+        meta = json.load(open(os.path.join(d, "meta.json")))
+        if meta.get("status") in ("superseded", "not_detected"):
+            print("%-24s %s (see meta.json)" % (name, meta["status"]))
+            continue
+        names.append(name)
+    base = "/tmp/seedpar"
+    shutil.rmtree(base, ignore_errors=True)
+    sh("git worktree prune", cwd=REPO)
+    lock = threading.Lock()
+    queue = list(names)
+    results = {}
+
+    def worker(k):
+        wt = os.path.join(base, str(k), "repo")
+        vc = os.path.join(base, str(k), "verif")
+        os.makedirs(os.path.dirname(wt), exist_ok=True)
+        rc, out = sh("git worktree add -q --detach %s HEAD" % wt, cwd=REPO)
+        if rc != 0:
+            print("worker %d: cannot create worktree: %s" % (k, out[:200]))
+            return
+        sh("rsync -a --exclude .git --exclude .work --exclude replays --exclude seeded --exclude evidence %s/ %s/" % (ROOT, vc))
+        gm = os.path.join(vc, "harness", "go.mod")
+        gmtxt = open(gm).read().replace("=> /repo", "=> " + wt)
+        open(gm, "w").write(gmtxt)
+        env_ev = os.path.join(vc, ".work", "evidence-scratch")
+        while True:
+            with lock:
+                if not queue:
+                    break
+                name = queue.pop(0)
+            d = os.path.join(SEEDED, name)
+            meta = json.load(open(os.path.join(d, "meta.json")))
+            rc, out = sh("git apply %s" % os.path.join(d, "patch.diff"), cwd=wt)
+            if rc != 0:
+                with lock:
+                    print("%-24s patch does not apply: %s" % (name, out[:200]), flush=True)
+                continue
+            res = {}
+            try:
+                for p in meta.get("checks", [meta["breaks_property"]]):
+                    t0 = time.time()
+                    tier = meta.get("tier", "quick")
+                    env = dict(os.environ, GOFLAGS="-mod=mod", GOPROXY="off", GOSUMDB="off", GOTOOLCHAIN="local", VERIF_EVIDENCE_DIR=env_ev)
+                    pr = subprocess.run("python3 verif.py run %s %s" % (p, tier), shell=True, cwd=vc, env=env, stdout=subprocess.PIPE, stderr=subprocess.STDOUT, text=True, errors="replace", timeout=7200)
+                    res[p] = {"rc": pr.returncode, "s": round(time.time() - t0, 1)}
+                    if pr.returncode not in (0, 1):
+                        with lock:
+                            print("%-24s %s exit %d: %s" % (name, p, pr.returncode, pr.stdout[-400:].replace("\n", " | ")), flush=True)
+                    if pr.returncode == 1:
+                        break  # reported; the remaining checks are not needed for a regression run
+            finally:
+                sh("git checkout -- . && git clean -fdq", cwd=wt)
+            caught = [p for p, v in res.items() if v["rc"] == 1]
+            with lock:
+                print("%-24s %-8s %s" % (name, "CAUGHT" if caught else "MISSED", " ".join("%s:rc%d(%.0fs)" % (a, b["rc"], b["s"]) for a, b in res.items())), flush=True)
+                results[name] = res
+                meta["last_prun"] = {"caught_by": caught, "tier": meta.get("tier", "quick"), "results": res, "mode": "scratch copy"}
+                json.dump(meta, open(os.path.join(d, "meta.json"), "w"), indent=1)
+        sh("git worktree remove --force %s" % wt, cwd=REPO)
+
+    ts = [threading.Thread(target=worker, args=(k,)) for k in range(n)]
+    for t in ts:
+        t.start()
+    for t in ts:
+        t.join()
+    sh("git worktree prune", cwd=REPO)
+    shutil.rmtree(base, ignore_errors=True)
+    missed = [x for x, r in results.items() if not any(v["rc"] == 1 for v in r.values())]
+    print("done: %d seeded changes, missed: %s" % (len(results), sorted(missed)))
+    return 0
+
+
 if __name__ == "__main__":
+    if len(sys.argv) >= 3 and sys.argv[1] == "prun":
+        sys.exit(cmd_prun(int(sys.argv[2]), sys.argv[3:]))
     if len(sys.argv) >= 5 and sys.argv[1] == "import":
         sys.exit(cmd_import(sys.argv[2], sys.argv[3], sys.argv[4]))
     if len(sys.argv) >= 2 and sys.argv[1] == "run":
